@@ -185,6 +185,13 @@ class Renderer:
             f = _fn(self.spec, it["fn"])
             args = ", ".join(self.arg(a, mod, imports) for a in it.get("args", []))
             e = self.sym(mod, it["fn"], f["module"], it.get("form", "from"), imports) + f"({args})"
+        elif k == "hof" and it.get("form") == "local_module_import":
+            # the package is imported at module level, its submodule only inside the body; the function is handed over by name
+            f = _fn(self.spec, it["fn"])
+            hpkg = self.pkg.replace("vp", "vh").replace("vr", "vh")
+            hmod = hpkg + "." + f["module"][2:]
+            imports.add(f"import {hpkg}")
+            return [f"import {hmod}", f"_{i} = pipehelp.call0({hmod}.{it['fn']})"]
         elif k == "hof":
             f = _fn(self.spec, it["fn"])
             e = "pipehelp.call0(" + self.sym(mod, it["fn"], f["module"], it.get("form", "from"), imports) + ")"
